@@ -32,7 +32,9 @@ RULE = ('a case is one expression tree (depth 0-3) over the catalogue with an en
         'the tree is observed in both runs; non-trivial = at least one leaf has a masked element whose two hidden values '
         'differ; distinct = distinct (tree, environment) line')
 ASSUMPTIONS = [
-    'hidden numbers are finite (NaN-free, inf-free) and of magnitude <= 1024; warnings that NumPy merely emits (not raised) '
+    'hidden numbers of Scalar/Vector operands are finite (NaN-free, inf-free) and of magnitude <= 1024; the linear-algebra stream '
+    '(Matrix inverse/reciprocal/division/powers, Polynomial.roots) additionally hides huge (to 3e307), tiny, NaN and +-inf '
+    'entries; warnings that NumPy merely emits (not raised) '
     'are not observables of the property and are not compared - only results and raised exceptions are',
     'a derivative is an operand of its own: its hidden storage is what lies under ITS OWN mask; derivative observations are '
     'taken where neither the result nor the derivative is masked',
@@ -66,6 +68,12 @@ def rand_mask(rng, shape):
     return bits, rng.choice(mask_reps(bits, shape))
 
 
+# hidden-value classes for the linear-algebra paths (Matrix.inverse / reciprocal / division / ** -n, Polynomial.roots):
+# besides zeros and negatives also HUGE finite numbers (products and determinants overflow), tiny ones, NaN and +-inf
+X_HID = [1e150, -1e150, 1e200, -1e200, 1e300, -3e307, 1e-300, -1e-300, 5e-324, float('nan'), float('inf'), float('-inf'),
+         0., 0., -1., 1., 2., -0.5, 1e155, 1e103, 1024., 800.]
+
+
 def gen_leaf(rng, t, shape, derivs=True, axis_len=3, mask=None, nonneg=False):
     n = int(np.prod(shape, dtype=int))
     isz = int(np.prod(O.ITEM[t], dtype=int))
@@ -73,7 +81,11 @@ def gen_leaf(rng, t, shape, derivs=True, axis_len=3, mask=None, nonneg=False):
     vals, alt = [], []
     for i in range(n):
         for _ in range(isz):
-            if t in ('F', 'V'):
+            if t in ('M2', 'M3', 'Y'):
+                vis = rng.choice(F_VIS)
+                a = rng.choice(F_HID_BENIGN + [0., -1.])
+                b = rng.choice(X_HID)
+            elif t in ('F', 'V'):
                 vis = rng.choice(F_VIS)
                 a = rng.choice(F_HID_BENIGN + F_HID_ADV)
                 b = rng.choice(F_HID_ADV)
@@ -512,6 +524,37 @@ def gen_cases(rng, tier):
                 g = Gen(rng, shape, derivs=False)
                 x, _, _ = g.leaf('I', list(shape))
                 cases.append(mk_case([name, params, x], g.env, 'int:' + name))
+    # 1d. linear-algebra paths: Matrix.inverse / reciprocal / M / M / M ** -n / unitary, Polynomial.roots, with hidden entries
+    #     that are huge, tiny, NaN or infinite (the hidden block of a matrix is sometimes uniformly extreme, sometimes mixed)
+    for _ in range(8 if thorough else 2):
+        for shape in SHAPES:
+            for t in ('M2', 'M3'):
+                for name, params in (('inverse', []), ('inverse_nz', []), ('mrecip', []), ('mrecip_nz', []), ('pow', [-1]), ('pow', [-2]),
+                                     ('pow', [2]), ('transpose', []), ('unitary', []), ('pickle', []), ('neg', []),
+                                     ('is_diagonal', []), ('row_vector', [0]), ('m_to_scalar', [0, 1])):
+                    g = Gen(rng, shape, derivs=False)
+                    x, _, _ = g.leaf(t, list(shape))
+                    if rng.random() < 0.4:          # a uniformly extreme hidden block
+                        l = g.env[x[1]]
+                        isz = int(np.prod(O.ITEM[t], dtype=int))
+                        bits_ = mask_bits(l['mask'], l['shape'])
+                        h = rng.choice(X_HID)
+                        l['alt'] = [h if bits_[k // isz] else v for k, v in enumerate(l['alt'])]
+                    cases.append(mk_case([name, params, x], g.env, 'lin:' + name))
+                for name in ('div', 'mul', 'add', 'sub', 'eq', 'ne'):
+                    g = Gen(rng, shape, derivs=False)
+                    a, _, _ = g.leaf(t)
+                    b, _, _ = g.leaf(t)
+                    cases.append(mk_case([name, [], a, b], g.env, 'lin:' + name))
+                g = Gen(rng, shape, derivs=False)
+                a, _, _ = g.leaf(t)
+                f, _, _ = g.leaf('F')
+                cases.append(mk_case(['mul', [], a, f], g.env, 'lin:mulF'))
+                cases.append(mk_case(['div', [], a, f], g.env, 'lin:divF'))
+            for name, params in (('roots', []), ('poly_eval', [0.5]), ('poly_deriv', []), ('pickle', [])):
+                g = Gen(rng, shape, derivs=False)
+                x, _, _ = g.leaf('Y', list(shape))
+                cases.append(mk_case([name, params, x], g.env, 'lin:Y' + name))
     # 1b. the option values of the public element-wise and reducing methods
     for _ in range(8 if thorough else 2):
         for shape in SHAPES:
